@@ -124,7 +124,17 @@ func (g *Engine) registerStringIntrinsics() {
 	I["net.ResolveUDPAddr"] = func(e *Exec, fn *ssa.Function, a []Value, pos token.Pos) Value {
 		return Tuple{dummyPtr(e, fn, 0), Iface{}}
 	}
-	I["time.NewTicker"] = func(e *Exec, fn *ssa.Function, a []Value, pos token.Pos) Value { return dummyPtr(e, fn, 0) }
+	I["time.NewTicker"] = func(e *Exec, fn *ssa.Function, a []Value, pos token.Pos) Value {
+		p := dummyPtr(e, fn, 0).(*Ptr)
+		if e.joinModel {
+			// field 0 is C: a channel on which a tick may be pending at any time
+			st := append(StructV{}, p.obj.v.(StructV)...)
+			e.nobj++
+			st[0] = &ChanV{id: e.nobj, ticker: true}
+			p.obj.v = st
+		}
+		return p
+	}
 	I["strconv.cloneString"] = func(e *Exec, fn *ssa.Function, a []Value, pos token.Pos) Value { return a[0] }
 	I["internal/stringslite.Clone"] = func(e *Exec, fn *ssa.Function, a []Value, pos token.Pos) Value { return a[0] }
 	I["strings.Clone"] = func(e *Exec, fn *ssa.Function, a []Value, pos token.Pos) Value { return a[0] }
